@@ -30,7 +30,7 @@ RULE = ("cases: generated trees with nesting, non-zero cancellation delays and s
 ASSUMPTIONS = RT_ASSUMPTIONS
 
 PROFILE = S.GENERAL.but(
-    p_nested=38, p_empty_nested=2, max_members=4,
+    p_nested=38, force_nested=85, p_empty_nested=2, max_members=4,
     cs=((0, 3), (1, 3), (2, 2)), sds=((0, 3), (1, 3), (2, 2), (3, 1)),
     sdts=((None, 1), (0, 1), (1, 3), (2, 2), (3, 1)),
     p_forever=12, p_raise=15, p_critical=35, p_wild=25)
